@@ -172,7 +172,31 @@ def cmp_close(prop, case, impl, model):
         out.append(('violation', 'close:status', 'CloseStatus %s, expected %s' % (impl.get('status'), model.get('status'))))
     return out
 
+def cmp_pair(prop, case, impl, model):
+    if 'PANIC' in impl:
+        return [('violation', 'pair:panic', 'the library panicked: ' + impl['PANIC'][:300])]
+    if 'dialerr' in impl or 'modelerror' in model:
+        return [('disagree', 'pair:setup', str(impl.get('dialerr')) + ' ' + str(model.get('modelerror'))[:300])]
+    out = []
+    if impl.get('errs') != 'nil,nil,nil,nil':
+        out.append(('violation', 'pair:call-failed', 'a write or read call failed: ' + str(impl.get('errs'))))
+    # the judge: the property itself — what was received is exactly what was written, per direction, in order
+    for d, e in (('c2s', 'expc2s'), ('s2c', 'exps2c')):
+        if impl.get(d) != model.get(e) and not out:
+            out.append(('violation', 'pair:messages-differ:' + d, 'received %s..., written %s...' % (str(impl.get(d))[:150], str(model.get(e))[:150])))
+    if impl.get('bufs') != 'ok':
+        out.append(('violation', 'pair:caller-buffer-modified', 'a buffer passed to a write call was modified'))
+    if not out:
+        for d in ('c2s', 's2c'):
+            if impl.get(d) != model.get(d):
+                out.append(('disagree', 'pair:model-delivery:' + d, 'model delivers %s...' % str(model.get(d))[:200]))
+        for d in ('wc2s', 'ws2c'):
+            if impl.get(d) != model.get(d):
+                out.append(('disagree', 'pair:wire-bytes:' + d, 'model wire differs from the tapped wire'))
+    return out
+
 COMPARE = {
+    'pair': cmp_pair,
     'close': cmp_close,
     'wire-in': cmp_wirein,
     'mask': cmp_mask,
@@ -187,6 +211,8 @@ def nontrivial(suite, case, impl):
         return n >= 4
     if suite == 'wire-in':
         return case.get('ops', '').count('R') > 1 and len(case.get('stream', '')) > 16
+    if suite == 'pair':
+        return True
     if suite == 'wire-out':
         return int(impl.get('n', '0') or 0) > 200 or '|' in case.get('prog', '')
     return True
@@ -222,6 +248,21 @@ PROPS = {
                    'after Close/CloseNow returned every later call fails and Close/CloseNow match net.ErrClosed (for every later history).',
         level_note='CloseSM abstracts the handshake to its API-visible outcomes; timing and concurrency of the handshake are C09/C05/C16.',
         technique='Go->Gallina translation of validWireCloseCode + Coq proofs (all of Z; induction over histories) + differential run against a scripted raw peer',
+    ),
+    'C01': dict(
+        suites=['pair', 'wire-out'],
+        rule='pair suite: two LIBRARY endpoints (real Dial/Accept negotiation) for all 3x3 client/server compression modes x thresholds {default,1,64,1000} per side, each side writing a '
+             'program of Write / Writer(chunks) messages (sizes from the boundary set 0..65537, multiples of 4096 +-1, one >= 1 MiB per 50 cases, histories > 32 KiB with takeover) while the '
+             'other reads with buffer sizes {1,7,512,4096,32768,100000,ReadAll}; both wires are tapped. Judge = received list equals written list per direction (type, length, digest, order) '
+             'and caller buffers unchanged (checksums). Plus the wire-out programs. non-trivial = every case; distinct = distinct case line',
+        trusted=COMMON_TRUSTED + [FLATE_ASSUME],
+        assumptions=[FLATE_ASSUME, '"caller buffers are never modified" is vacuous on immutable Gallina values: the model makes the copy-then-mask step explicit (C01_payload_masking is about the BUFFER); '
+                     'that the caller\'s slice is untouched is established by checksums in the harness only'],
+        level_text='Theorems: frames parse back exactly for every program/configuration/compressor behaviour; the client\'s copy-then-mask bufio loop puts pending ++ mask(payload) on the wire for every '
+                   'buffer fill state; the trim writer sends all but the last 4 bytes for any chunking; the sliding-window dictionary is the last 32 KiB for any slice sizes. Tie: model wire = tapped wire and '
+                   'model delivery = library delivery on every case; judge: received = written.',
+        level_note='partial: the end-to-end theorem Reader(Writer(prog)) = messages (C01_roundtrip) is not yet proved; it is checked case by case by running the extracted Writer∘Reader composition.',
+        technique='Coq proofs (induction over chunk lists / buffer loop) + differential run of extracted Writer∘Reader vs two library endpoints',
     ),
     'C16': dict(
         suites=['close', 'wire-out'],
